@@ -193,9 +193,33 @@ func (d *Director) RewriteDirectorFunc(route *RewriteRoute) func(*http.Request) 
 // deleteCookieHandler removes the configured session cookie
 func deleteCookieHandler(handler http.Handler, cookieName string) http.Handler {
 	return http.HandlerFunc(func(rw http.ResponseWriter, req *http.Request) {
+		sanitizeConnection(req)
 		deleteCookie(req, cookieName)
 		handler.ServeHTTP(rw, req)
 	})
+}
+
+// sanitizeConnection keeps only the connection options a client may legitimately ask of the
+// proxy. httputil.ReverseProxy removes every header named in the client's Connection header
+// after the Director has run, i.e. after the identity headers were set and the request was
+// signed; a client could otherwise name X-Forwarded-Email, Sso-Signature or a covered header
+// there and have it dropped on the way to the upstream.
+func sanitizeConnection(req *http.Request) {
+	var keep []string
+	for _, v := range req.Header["Connection"] {
+		for _, tok := range strings.Split(v, ",") {
+			tok = strings.TrimSpace(tok)
+			switch strings.ToLower(tok) {
+			case "close", "keep-alive", "upgrade":
+				keep = append(keep, tok)
+			}
+		}
+	}
+	if len(keep) == 0 {
+		req.Header.Del("Connection")
+		return
+	}
+	req.Header.Set("Connection", strings.Join(keep, ", "))
 }
 
 // newSigningHandler creates middleware that signs requests using the configured signing method.
